@@ -525,9 +525,22 @@ Exec(s, env) ==
 \* documented) and the memory overlay of the two bytes pushed.
 \* bytes pushed by an acknowledge are visible to the rest of the call - unless the machine says that
 \* the low part of the address space is ROM (env.romtop), where writes have no effect
+\* ... and, when the machine maps one RAM bank into two windows (128K: bank 2 or 5 paged at 0xC000; env.alias names the
+\* bank), a byte written through one window is read back through the other
+AliasOf(env, a) ==
+    IF "alias" \notin DOMAIN env THEN -1
+    ELSE LET lo == IF env.alias = 2 THEN 32768 ELSE IF env.alias = 5 THEN 16384 ELSE -1 IN
+         IF lo < 0 THEN -1
+         ELSE IF a >= lo /\ a < lo + 16384 THEN 49152 + (a - lo)
+         ELSE IF a >= 49152 THEN lo + (a - 49152)
+         ELSE -1
 Overlay(env, wr) ==
     LET w == IF "romtop" \in DOMAIN env THEN SelectSeq(wr, LAMBDA p : p[1] >= env.romtop) ELSE wr
-    IN [env EXCEPT !.poke = w \o env.poke]
+        RECURSIVE Both(_)
+        Both(q) == IF q = <<>> THEN <<>>
+                   ELSE LET h == Head(q)   al == AliasOf(env, h[1])
+                        IN (IF al >= 0 THEN << h, <<al, h[2]>> >> ELSE << h >>) \o Both(Tail(q))
+    IN [env EXCEPT !.poke = Both(w) \o env.poke]
 Unhalt(s) == IF s.halted = 1 THEN [s EXCEPT !.halted = 0, !.pc = W16(s.pc + 1)] ELSE s
 
 NmiAck(s) ==
